@@ -234,6 +234,7 @@ pub fn field(f: &syn::Field) -> Sx {
             ihi,
             lo,
             hi,
+            st(toks(f)),
         ],
     )
 }
@@ -261,6 +262,7 @@ pub fn variant(v: &syn::Variant) -> Sx {
             ihi,
             lo,
             hi,
+            st(toks(v)),
         ],
     )
 }
